@@ -20,7 +20,7 @@ ASSUMPTIONS = [
     "every declared level of an ordered categorical occurs in the frame",
 ]
 
-CATS = ("f", "g", "h", "C(k)")
+CATS = ("f", "g", "h", "C(k)", "T(f, 'a')", "C(g, Treatment('g1'))", "T(h, 'mid')")
 NUMS = ("x", "z")
 GROUP_FACTORS = ("g", "h", "C(k)", (":", ("var", "g"), ("var", "h")), (":", ("var", "h"), ("var", "f")),
                  ("+", ("var", "g"), ("var", "h")), ("/", ("var", "g"), ("var", "C(k)")), ("+", ("var", "h"), ("var", "C(k)")))
